@@ -86,8 +86,15 @@ func (m *Type) Clone(reuse *Type) *Type {
 		newFP = make([]int, 0, newStackSize)
 	}
 
+	// the clone gets its own closure stack, holding the captured frame of the
+	// cloned call; sharing the slice lets the two contexts overwrite each other
+	newClosure := []Frame{}
+	if len(m.closure) > 0 {
+		newClosure = append(newClosure, m.closure[len(m.closure)-1])
+	}
+
 	if len(m.fp) < 2 {
-		return &Type{sp: 0, fp: newFP, global: m.global, closure: m.closure, stack: newStack}
+		return &Type{sp: 0, fp: newFP, global: m.global, closure: newClosure, stack: newStack}
 	}
 
 	fp := m.fp[len(m.fp)+localFP]
@@ -100,12 +107,12 @@ func (m *Type) Clone(reuse *Type) *Type {
 		reuse.sp = m.sp - fp
 		reuse.fp = newFP
 		reuse.global = m.global
-		reuse.closure = m.closure
+		reuse.closure = newClosure
 		reuse.stack = newStack
 		return reuse
 	}
 
-	return &Type{sp: m.sp - fp, fp: newFP, global: m.global, closure: m.closure, stack: newStack}
+	return &Type{sp: m.sp - fp, fp: newFP, global: m.global, closure: newClosure, stack: newStack}
 }
 
 // CallDepth is the number of call frames.
